@@ -1,5 +1,6 @@
 import StrandModel.Props.C05
 import StrandModel.Lemmas.Powm
+import StrandModel.Lemmas.Encode
 /-
 C01 — ElGamal decrypt inverts encrypt for every key, message, randomness and back-end.
 -/
@@ -96,6 +97,10 @@ end generic
 /-! ### the plaintext encoding of the multiplicative back-ends -/
 section nat
 
+/-- the ciphertext wire round trip (C12: `ciphertext_wire`), as a hypothesis of the transport theorem -/
+def LawfulCodecCt (P : Params) (fl : Flavour) : Prop :=
+  ∀ c : Ciphertext Nat, tryFromSlice (codecCt (natOps P fl)) ((codecCt (natOps P fl)).enc c) = some c
+
 /-- `decode` inverts `encode` on the whole plaintext space; needs only `p = 2q+1` -/
 theorem decode_encode (P : Params) (hp : P.p = 2 * P.q + 1) (m e : Nat)
     (h : Nat'.encode P m = some e) : Nat'.decode P e = m := by
@@ -121,6 +126,52 @@ theorem decode_encode (P : Params) (hp : P.p = 2 * P.q + 1) (m e : Nat)
         have : P.p - (m + 1) > P.q := by omega
         simp only [this, if_true]
         omega
+
+/-- THE round trip of the property for the multiplicative back-ends: for every safe-prime
+    parameter set, every secret key, EVERY plaintext of the plaintext space `0 … q-2` and every
+    randomness, encoding succeeds and decode ∘ decrypt ∘ encrypt ∘ encode is the identity. -/
+theorem roundtrip_nat (P : Params) (fl : Flavour) (h : SafePrimeGroup P) (sk r m : Nat)
+    (hm : m < P.q - 1) :
+    ∃ e, Nat'.encode P m = some e ∧
+      Nat'.decode P (decrypt (natOps P fl) sk
+        (encryptWith (natOps P fl) (pkOf (natOps P fl) sk) e r)) = m := by
+  obtain ⟨e, he⟩ := (encode_isSome_iff P h m).mpr hm
+  obtain ⟨_, he2, he3⟩ := encode_valid' P h m e he
+  refine ⟨e, he, ?_⟩
+  rw [decrypt_encrypt (natLawful P fl h) sk r e ⟨he3, he2⟩]
+  exact decode_encode P h.p_eq m e he
+
+/-- the exponent transport either reports an error (exactly for x ≥ q-1) or round-trips -/
+theorem transport_nat (P : Params) (fl : Flavour) (h : SafePrimeGroup P) (sk r x : Nat)
+    (tape : List Nat) (hP : LawfulCodecCt P fl) :
+    (x < P.q - 1 → ∃ bs, natEncryptExp P fl x (pkOf (natOps P fl) sk) (r :: tape) = some (some bs, tape)
+        ∧ natDecryptExp P fl bs sk = some x) ∧
+    (P.q - 1 ≤ x → natEncryptExp P fl x (pkOf (natOps P fl) sk) (r :: tape) = some (none, r :: tape)) := by
+  constructor
+  · intro hx
+    obtain ⟨e, he⟩ := (encode_isSome_iff P h x).mpr hx
+    obtain ⟨_, he2, he3⟩ := encode_valid' P h x e he
+    refine ⟨(codecCt (natOps P fl)).enc (encryptWith (natOps P fl) (pkOf (natOps P fl) sk) e r),
+      by simp [natEncryptExp, he], ?_⟩
+    unfold natDecryptExp
+    rw [hP _]
+    simp only [Option.some.injEq]
+    rw [decrypt_encrypt (natLawful P fl h) sk r e ⟨he3, he2⟩]
+    exact decode_encode P h.p_eq x e he
+  · intro hx
+    simp [natEncryptExp, encode_none_of_ge P x hx]
+
+/-! ### non-vacuity -/
+def P23 : Params := ⟨23, 11, 2, 2⟩
+theorem P23_safe : SafePrimeGroup P23 :=
+  ⟨by norm_num [P23], by norm_num [P23], by norm_num [P23], by norm_num [P23], by norm_num [P23],
+   by decide⟩
+/-- sk = 7, the largest plaintext q-2 = 9, randomness 0 -/
+example : ∃ e, Nat'.encode P23 9 = some e ∧ Nat'.decode P23 (decrypt (natOps P23 .bigint) 7
+    (encryptWith (natOps P23 .bigint) (pkOf (natOps P23 .bigint) 7) e 0)) = 9 :=
+  roundtrip_nat P23 .bigint P23_safe 7 0 9 (by norm_num [P23])
+example : Nat'.decode P23 (decrypt (natOps P23 .malachite) 10
+    (encryptWith (natOps P23 .malachite) (pkOf (natOps P23 .malachite) 10) 13 10)) = 9 := by decide
 
 end nat
 end Strand.C01
